@@ -234,13 +234,15 @@ func (vc *VC) mustCallMark(fr *frame, n *Node, x *ssa.Call, callee string, args 
 			if mc.Callee != callee {
 				continue
 			}
-			mc.Hits++
 			ctx := &SpecCtx{vc: vc, lookup: vc.nodeLookup(fr, n, x, args), st: n.st, oldSt: fr.entrySt, oldLookup: func(name string) (Val, bool) { return vc.paramLookup(fr, name) }, pkg: fr.fn.Pkg.Pkg, fnName: fr.fn.Name(), fr: fr}
 			t, err := ctx.EvalBool(mc.ArgCond)
 			if err != nil {
-				vc.errorf("mustcall %s %q: %v", callee, mc.Text, err)
+				// the argument condition mentions a variable that is not in scope at this call: this call is not a
+				// match; a clause whose condition can be evaluated at no call at all is stale (Hits stays 0)
+				vc.enc.notes[fmt.Sprintf("mustcall clause %q does not apply to the call of %s at %s (%v)", truncate(mc.Text, 40), callee, vc.pos(x.Pos()), err)] = true
 				continue
 			}
+			mc.Hits++
 			name := fmt.Sprintf("calledfn.%d", i)
 			cur := vc.memAtByName(n.st, name)
 			n.st.mem[name] = vc.def(name, "Bool", or(cur, t))
@@ -254,13 +256,15 @@ func (vc *VC) mustCallMark(fr *frame, n *Node, x *ssa.Call, callee string, args 
 			if mc.Callee != callee {
 				continue
 			}
-			mc.Hits++
 			ctx := &SpecCtx{vc: vc, lookup: vc.nodeLookup(fr, n, x, args), st: n.st, oldSt: fr.entrySt, oldLookup: func(name string) (Val, bool) { return vc.paramLookup(fr, name) }, pkg: fr.fn.Pkg.Pkg, fnName: fr.fn.Name(), fr: fr, loop: l}
 			t, err := ctx.EvalBool(mc.ArgCond)
 			if err != nil {
-				vc.errorf("mustcall %s %q: %v", callee, mc.Text, err)
+				// the argument condition mentions a variable that is not in scope at this call: this call is not a
+				// match; a clause whose condition can be evaluated at no call at all is stale (Hits stays 0)
+				vc.enc.notes[fmt.Sprintf("mustcall clause %q does not apply to the call of %s at %s (%v)", truncate(mc.Text, 40), callee, vc.pos(x.Pos()), err)] = true
 				continue
 			}
+			mc.Hits++
 			name := mustFlag(l, i)
 			cur := vc.memAtByName(n.st, name)
 			n.st.mem[name] = vc.def(name, "Bool", or(cur, t))
